@@ -1,0 +1,80 @@
+//go:build verif
+
+// Machine-checked contracts for package graph (comments only; see
+// ../../verif_contracts.go). They are read by /verif/digvc.
+
+package graph
+
+// The abstract graph behind a Graph value: its order and its edge relation.
+// Both are functions of the interface value alone: IsAcyclic assumes that the
+// graph is not mutated while it is being searched (the two methods below
+// write nothing; that is proved for *graphHolder in package dig).
+//@ ufunc gorder(Any) Int
+//@ ufunc gedge(Any, Int, Int) Bool
+
+//@ func (g Graph) Order() (n)
+//@   trusted
+//@   ensures n == gorder(g) && n >= 0
+
+//@ func (g Graph) EdgesFrom(u) (r)
+//@   trusted
+//@   allocates
+//@   ensures fresh(r) || len(r) == 0
+//@   ensures forall i int :: 0 <= i && i < len(r) ==> 0 <= r[i] && r[i] < gorder(g) && gedge(g, u, r[i])
+
+// A closed path of the graph: at least one edge, ends where it starts, every
+// step is an edge.
+//@ pure func closedPath(g Any, c []int) Bool =
+//@   len(c) >= 2 && c[0] == c[len(c) - 1]
+//@   && (forall i int :: 0 <= i && i + 1 < len(c) ==> gedge(g, c[i], c[i+1]))
+
+// p is a walk of the graph: nodes in range, consecutive nodes joined by edges
+//@ pure func pathOK(g Any, p []int) Bool =
+//@   (forall i int :: 0 <= i && i < len(p) ==> 0 <= p[i] && p[i] < gorder(g))
+//@   && (forall i int :: 0 <= i && i + 1 < len(p) ==> gedge(g, p[i], p[i+1]))
+
+// every node marked OnStack lies on the path, and is marked Visited
+//@ pure func stackOnPath(info cycleInfo, p []int) Bool =
+//@   forall v int :: 0 <= v && v < len(info) && info[v].OnStack ==> info[v].Visited && (exists i int :: 0 <= i && i < len(p) && p[i] == v)
+
+//@ func (info cycleInfo) Reset() ()
+//@   modifies elems(cycleNode)
+//@   ensures[C05:reset-clears-the-stack-marks] forall v int :: 0 <= v && v < len(info) ==> !info[v].OnStack && info[v].Visited == old(info[v].Visited)
+//@   ensures keptExcept(info.arr, elems(cycleNode))
+//@   loop range info #1: invariant[C05:reset-so-far] (forall v int :: 0 <= v && v < $i ==> !info[v].OnStack) && (forall v int :: 0 <= v && v < len(info) ==> info[v].Visited == old(info[v].Visited))
+//@   loop range info #1: invariant keptExcept(info.arr, elems(cycleNode))
+
+//@ func isAcyclic(g, u, info, path0) (cycle)
+//@   requires g != nil && 0 <= u && u < gorder(g) && len(info) == gorder(g)
+//@   requires pathOK(g, path0) && (len(path0) > 0 ==> gedge(g, path0[len(path0) - 1], u))
+//@   requires stackOnPath(info, path0)
+//@   requires info.arr != path0.arr || len(info) == 0
+//@   modifies elems(cycleNode), elems(int)
+//@   allocates
+//@   let es = ret(EdgesFrom_1, 0)
+//@   ensures[C05:cycle-is-closed-path] len(cycle) > 0 ==> closedPath(g, cycle)
+//@   ensures[C05:cycle-nodes-in-range] forall i int :: 0 <= i && i < len(cycle) ==> 0 <= cycle[i] && cycle[i] < gorder(g)
+//@   ensures[C05:no-cycle-restores-stack] len(cycle) == 0 ==> (forall v int :: 0 <= v && v < len(info) ==> info[v].OnStack == old(info[v].OnStack))
+//@   ensures[C05:visited-only-grows] forall v int :: 0 <= v && v < len(info) && old(info[v].Visited) ==> info[v].Visited
+//@   ensures[C05:search-writes-only-its-marks] keptExcept(info.arr, elems(cycleNode))
+//@   ensures[C05:search-keeps-the-path] keptExcept(path0.arr, elems(int)) && (forall i int :: 0 <= i && i < len(path0) ==> path0[i] == old(path0[i]))
+//@   loop range g.EdgesFrom(u) #1: invariant[C05:dfs-edges-stay-edges] (forall i int :: 0 <= i && i < len(es) ==> 0 <= es[i] && es[i] < gorder(g) && gedge(g, u, es[i]))
+//@        && (len(es) == 0 || es.arr != path.arr)
+//@   loop range g.EdgesFrom(u) #1: invariant[C05:dfs-path-is-a-walk] pathOK(g, path) && len(path) == len(path0) + 1 && path[len(path) - 1] == u
+//@   loop range g.EdgesFrom(u) #1: invariant[C05:dfs-stack-is-the-path] stackOnPath(info, path)
+//@        && (forall v int :: 0 <= v && v < len(info) ==> info[v].OnStack == (old(info[v].OnStack) || v == u))
+//@        && !old(info[u].OnStack)
+//@   loop range g.EdgesFrom(u) #1: invariant[C05:dfs-visited-only-grows] forall v int :: 0 <= v && v < len(info) && old(info[v].Visited) ==> info[v].Visited
+//@   loop range g.EdgesFrom(u) #1: invariant[C05:dfs-writes-only-its-marks] keptExcept(info.arr, elems(cycleNode)) && keptExcept(path0.arr, elems(int))
+//@        && (forall i int :: 0 <= i && i < len(path0) ==> path0[i] == old(path0[i]))
+//@        && (path.arr == path0.arr || fresh(path)) && info.arr != path.arr
+//@   loop for i >= 0 #1: invariant[C05:cycle-start-not-yet-found] 0 - 1 <= i && i < len(path) && cycle == path
+//@        && (forall j int :: i < j && j < len(path) ==> path[j] != v)
+
+//@ func IsAcyclic(g) (ok, cycle)
+//@   requires g != nil
+//@   allocates
+//@   ensures[C05:reported-cycle-is-a-closed-path] !ok ==> closedPath(g, cycle)
+//@   ensures[C05:reported-cycle-nodes-in-range] !ok ==> forall i int :: 0 <= i && i < len(cycle) ==> 0 <= cycle[i] && cycle[i] < gorder(g)
+//@   ensures[C05:acyclic-verdict-has-no-path] ok ==> len(cycle) == 0
+//@   loop for i < g.Order() #1: invariant[C05:marks-sized-by-order] len(info) == gorder(g) && 0 <= i && (fresh(info) || len(info) == 0)
